@@ -249,7 +249,10 @@ def c08_script(seed, proto):
     """Answer patterns over consecutive heartbeats: prompt / late by d / never; silence from the
     first beat, after a response, after a previous timeout reset."""
     rng = random.Random(seed)
-    inst = installation(proto, rng, n_acs=rng.randrange(1, 3), n_zones=rng.randrange(1, 4))
+    na, nz = rng.randrange(1, 3), rng.randrange(1, 4)
+    if proto == "at5" and seed % 7 == 0:
+        nz = 0        # a console without zones finishes the handshake on its own path (echoed requests): monitored all the same
+    inst = installation(proto, rng, n_acs=na, n_zones=nz)
     inst["version"] = (False, inst["version"][1])
     b = ClientBuilder(proto, rng)
     b.preamble()
